@@ -27,6 +27,7 @@ type histKeys struct {
 	opts     bool // option getters, raw option word, string settings, log levels
 	fifo     bool
 	condFull bool // Condition: validity, rendering, Err
+	noCond   bool // Conditions are not modelled in this property
 }
 
 func newHistState(x *Exec) *histState {
@@ -270,7 +271,7 @@ func (st *histState) stepModel(x *Exec, op Op, out Outcome, k histKeys) string {
 						why = w.objs[i].name + ": " + d
 						break
 					}
-				} else if a.W.C[i] != nil && a.W.C[i].Live {
+				} else if a.W.C[i] != nil && a.W.C[i].Live && !k.noCond {
 					if d := cmpCond(x, i, a.W.C[i], k); d != "" {
 						why = w.objs[i].name + ": " + d
 						break
